@@ -1055,8 +1055,11 @@ class Dialect(metaclass=_Dialect):
 
         self.settings = kwargs
 
-        for unsupported_setting in kwargs.keys() - self.SUPPORTED_SETTINGS:
-            suggest_closest_match_and_fail("setting", unsupported_setting, self.SUPPORTED_SETTINGS)
+        for unsupported_setting in kwargs:
+            if unsupported_setting not in self.SUPPORTED_SETTINGS:
+                suggest_closest_match_and_fail(
+                    "setting", unsupported_setting, self.SUPPORTED_SETTINGS
+                )
 
     def __eq__(self, other: object) -> bool:
         # Does not currently take dialect state into account
